@@ -523,12 +523,15 @@ func (e *CoreExtension) filterDate(value interface{}, args ...interface{}) (inte
 			// The other number types are timestamps too, a pointer stands for what it
 			// points to, and a named string type is a string
 			rv := reflect.ValueOf(value)
-			switch rv.Kind() {
-			case reflect.Ptr, reflect.Interface:
-				if !rv.IsNil() && rv.Elem().CanInterface() {
-					return e.filterDate(rv.Elem().Interface(), args...)
+			for depth := 0; depth < 4 && (rv.Kind() == reflect.Ptr || rv.Kind() == reflect.Interface) && !rv.IsNil(); depth++ {
+				rv = rv.Elem()
+			}
+			if rv.Kind() == reflect.Struct && rv.CanInterface() {
+				if pointed, ok := rv.Interface().(time.Time); ok {
+					return e.filterDate(pointed, args...)
 				}
-				dt = time.Now()
+			}
+			switch rv.Kind() {
 			case reflect.Int8, reflect.Int16, reflect.Int32, reflect.Int, reflect.Int64:
 				return e.filterDate(rv.Int(), args...)
 			case reflect.Uint8, reflect.Uint16, reflect.Uint32, reflect.Uint, reflect.Uint64:
